@@ -16,7 +16,8 @@ EXPLANATION = (
     "Bounded symbolic execution (MIR->SMT, z3). Marking: AttrStore::compute_no_format_impl (+ set_format_disabled, set_commented) over "
     "every sequence of up to K children with symbolic kinds and, per comment, a symbolic 'text contains @typstyle off': child i is "
     "marked iff it is a directive comment or the first sibling after a directive comment that is neither a comment, whitespace nor a "
-    "hash; the parent is marked has_comment iff some child is a comment; the pass recurses exactly into the unmarked non-comment "
+    "hash; what counts as a directive is decided on comment texts of symbolic characters (`//` or `/*` + p + `@typstyle off` + q, p + q <= 2 / 3: "
+    "always a directive; comments too short to hold the words and four comments without them: never); the parent is marked has_comment iff some child is a comment; the pass recurses exactly into the unmarked non-comment "
     "children. Consumption: convert_expr, convert_pattern, convert_math and convert_code_block with the mark symbolic: marked => the "
     "result is exactly text(source text of the node) and no other converter runs; unmarked => falls through to the ordinary "
     "conversion with the same context. Structural (same dump): convert_expr is the only caller of convert_expr_impl. That every "
@@ -103,6 +104,52 @@ def run(S):
             found.append((lab, info))
         if ob.status.startswith('inconclusive'):
             break
+
+    # ---- (1b) what counts as a directive: the comment text is a string of symbolic characters ---------------------------------------
+    # `//` or `/*` + p arbitrary characters + `@typstyle off` + q arbitrary characters (+ `*/`): the next node is marked, whatever surrounds the
+    # words; a comment too short to hold the words, or one of the listed near misses, marks nothing
+    from mirsym.models_std import valid_scalar
+    NEAR = ['// @typstyle on', '// @typstyle', '// a comment about typstyle', '/* off */']      # (spellings a laxer reader might accept, e.g. two blanks, are not judged)
+    PQ = [(0, 0), (1, 0), (0, 1), (1, 1), (2, 0), (0, 2)] + ([] if S.tier == 'quick' else [(2, 1), (1, 2), (2, 2), (3, 0), (0, 3)])
+    cases = [('dir', blk, p_, q_) for blk in (False, True) for (p_, q_) in PQ] + [('short', blk, n_, 0) for blk in (False, True) for n_ in range(0, 4)] + [('near', t_.startswith('/*'), t_, 0) for t_ in NEAR]
+    for case in cases:
+        def body_dir(ctx, case=case):
+            tag, blk, p_, q_ = case
+            m = S.machine(core, STD, ctx, overrides={})
+            if tag == 'near':
+                text = Str.lit(p_)
+            else:
+                pre = sym_str(ctx, 'p', p_)
+                suf = sym_str(ctx, 's', q_)
+                for c in list(pre.chars) + list(suf.chars):
+                    # lexer facts: a line comment holds no Typst newline, a block comment closes at the first `*/` (and nests at `/*`)
+                    if blk:
+                        ctx.assume(b_and(b_not(c_eq(c, ord('*'))), b_not(c_eq(c, ord('/')))))
+                    else:
+                        ctx.assume(b_not(b_or(*[i_eq(c, k_, 32) for k_ in T.TYPST_NEWLINES])))
+                mid = Str.lit('@typstyle off') if tag == 'dir' else Str.lit('')
+                text = Str.lit('/*' if blk else '//').concat(pre).concat(mid).concat(suf).concat(Str.lit('*/' if blk else ''))
+            kids = [Node(K_BC if blk else K_LC, text=text, nid=10), Node(K_SP, text=Str.lit('\n'), nid=11), Node(kt.k('Ident'), text=Str.lit('x'), nid=12)]
+            parent = Node(kt.k('Markup'), children=kids, nid=1)
+            store = m.heap.alloc(Agg('AttrStore', None, (MapV(),), ('attr_map',)))
+            try:
+                m.call_fn(f_mark, [store, parent])
+            except Panic as pn:
+                S.absorb(m)
+                ctx.must_hold(False, 'marking-panics', lambda mdl: dict(comment=text.concrete(mdl), panic=pn.msg))
+                return
+            S.absorb(m)
+            mp = m.load(store).get('attr_map').d
+            got = mp.get(('span', 12))
+            got_marked = got.get('is_format_disabled') if got is not None else False
+            want_marked = tag == 'dir'
+            ctx.must_hold(i_eq(got_marked, want_marked), 'comment-containing-the-directive-words-not-honoured' if want_marked else 'comment-without-the-directive-words-honoured',
+                          lambda mdl: dict(comment=text.concrete(mdl), marked=model_bool(mdl, got_marked), expected=want_marked))
+        ob, ex = S.explore('attr.directive_text[%s,%s,%r,%r]' % (case[0], 'block' if case[1] else 'line', case[2], case[3]),
+                           'a comment marks the next node iff its text contains `@typstyle off` (comment text of symbolic characters)', body_dir,
+                           bounds=dict(prefix=case[2], suffix=case[3]))
+        for lab, mdl, info in ex.violations:
+            found.append((lab, info))
 
     # ---- (2) consumption -----------------------------------------------------------------------------------------
     def consume(name, fn_name, make_arg, impl_overrides, kind_name):
@@ -209,7 +256,22 @@ def run(S):
         w = native_confirm(S)
         for lab in sorted({l for l, _ in found}):
             info = [i for l, i in found if l == lab][0]
-            if w:
+            wm = None
+            for inf in [i for l, i in found if l == lab and isinstance(i, dict) and 'comment' in i][:8]:
+                # the model's own comment text in front of a call with odd spacing
+                src = inf['comment'] + '\n#f( 1 ,2 )\n'
+                if S.driver.call('erroneous', hexs(src))[1] == '1':
+                    continue
+                r = S.driver.call('format', hexs(src), 80, 2, 0)
+                out = unhexs(r[1]) if r[0] == 'ok' else r[0]
+                if inf['expected'] != ('#f( 1 ,2 )' in out):
+                    wm = dict(api='Typstyle::format_content', source=src, width=80, output=out,
+                              what='the comment %s %s `@typstyle off` but the node after it is %s: %s -> %s' % (show(inf['comment']), 'contains' if inf['expected'] else 'does not contain',
+                                                                                                          'formatted' if inf['expected'] else 'kept verbatim', show(src), show(out)))
+                    break
+            if wm:
+                S.violation('C07:' + lab, 'C07:%s: %s' % (lab, wm['what']), dict(api=wm, model=info))
+            elif w:
                 S.violation('C07:' + lab, 'C07:%s: %s' % (lab, w['what']), dict(api=w, model=info))
             else:
                 S.inconclusive.append('C07:%s: solver model %r has no reproduction in the native corpus' % (lab, info))
@@ -221,7 +283,7 @@ def run(S):
             S.inconclusive.append('C07: the native corpus shows a deviation the solver-decided units do not explain: %s' % w['what'])
     S.assumptions += [
         'typst-syntax accessors (CodeBlock::body, casts) follow their contracts; Code body = the Code child of the block',
-        'the comment text test is the uninterpreted predicate contains("@typstyle off"); the substring search itself is std code',
+        'in the child-sequence obligation the comment text test is the uninterpreted predicate contains("@typstyle off"); the directive-text obligation executes the test on comment texts of symbolic characters (std contracts for contains / split / trim)',
         'HashMap<Span, Attributes> behaves as a finite map keyed by span; spans are unique per node',
     ]
     return S.finish(level='other', explanation=EXPLANATION, trusted=['mirsym encoder', 'typst-syntax contracts', 'HashMap contract'])
